@@ -40,14 +40,24 @@ def _vec(n):
 
 
 def s_hatvee():
+    def small(n):      # small non-negative / signed integers: representable in every element type, products far from overflow... of float64
+        return st.one_of(st.lists(st.integers(0, 11), min_size=n, max_size=n), st.lists(st.integers(-11, 11), min_size=n, max_size=n)).map(lambda v: [float(x) for x in v])
     return st.fixed_dictionaries({
         "kind": st.just("hatvee"),
         "n": st.sampled_from([1, 3, 6]),
-        "form": st.sampled_from(["list", "tuple", "array"]),
+        "form": st.sampled_from(["list", "tuple", "array"] * 2 + DT_FORMS),
     }).flatmap(lambda d: st.fixed_dictionaries({
         "kind": st.just("hatvee"), "n": st.just(d["n"]), "form": st.just(d["form"]),
-        "u": _vec(d["n"]), "v": _vec(d["n"]),
+        "u": small(d["n"]) if d["form"].startswith("array:") else _vec(d["n"]), "v": small(d["n"]) if d["form"].startswith("array:") else _vec(d["n"]),
         "a": st.integers(-50, 50).map(float), "b": st.integers(-50, 50).map(float)}))
+
+
+def gen_hatvee_dtypes(tier):
+    for n in (1, 3, 6):
+        for form in DT_FORMS:
+            for u, v in (([1.0, 2.0, 3.0, 4.0, 5.0, 6.0], [6.0, 4.0, 1.0, 3.0, 2.0, 5.0]), ([3.0, -2.0, 7.0, -4.0, 1.0, -6.0], [-5.0, 4.0, 1.0, 9.0, -2.0, 8.0]),
+                         ([100.0, 90.0, 110.0, 7.0, 120.0, 3.0], [101.0, 5.0, 99.0, 125.0, 2.0, 80.0])):
+                yield {"kind": "hatvee", "n": n, "form": form, "u": u[:n], "v": v[:n], "a": 2.0, "b": -3.0}
 
 
 def s_adjoint():
@@ -64,11 +74,23 @@ def s_delta():
     return st.fixed_dictionaries({"kind": st.just("delta"), "d": dvec, "T0": gens.pose3(t_hi=3), "T1": gens.pose3(t_hi=3)})
 
 
+DT_FORMS = ["array:float32", "array:int32", "array:int16", "array:int8", "array:uint8", "array:uint16"]
+
+
 def _form(v, form):
     if form == "list":
         return list(v)
     if form == "tuple":
         return tuple(v)
+    if form.startswith("array:"):
+        # 'for all real vectors': the same numbers in an array of another real element type (when exactly representable)
+        with np.errstate(all="ignore"):
+            try:
+                a = np.array(v, dtype=np.dtype(form[6:]))
+                if np.array_equal(a.astype(float), np.array(v, dtype=float)):
+                    return a
+            except (OverflowError, ValueError):
+                pass
     return np.array(v)
 
 
@@ -102,7 +124,7 @@ def _hatvee(case):
                 c.eq("skew/linear", S2, a_ * S + b_ * np.asarray(Sv, dtype=float), 4e-16, mag)
             if n == 3:
                 c.eq("skew(a)b", S @ v, np.cross(u, v), 1e-14, max(1.0, float(np.max(np.abs(u)) * np.max(np.abs(v)))))
-                okc, cr = c.lib("cross", b.cross, np.array(u), np.array(v))
+                okc, cr = c.lib("cross", b.cross, _form(case["u"], case["form"]), _form(case["v"], case["form"]))
                 if okc:
                     c.eq("cross", cr, np.cross(u, v), 1e-14, max(1.0, float(np.max(np.abs(u)) * np.max(np.abs(v)))))
             else:
@@ -124,11 +146,11 @@ def _hatvee(case):
                 if ok2:
                     c.eq("vexa(skewa)", r, u, 0)
     # vector helpers against their definitions
-    okn, nr = c.lib("norm", b.norm, np.array(u))
+    okn, nr = c.lib("norm", b.norm, _form(case["u"], case["form"]) if case["form"].startswith("array") else np.array(u))
     exact = math.sqrt(float(sum(Fraction(x) * Fraction(x) for x in case["u"]))) if all(abs(x) < 1e150 for x in case["u"]) else None
     if okn and exact is not None:
         c.eq("norm", nr, exact, 1e-14, max(exact, 1e-300))
-    okq, nq = c.lib("normsq", b.normsq, np.array(u))
+    okq, nq = c.lib("normsq", b.normsq, _form(case["u"], case["form"]) if case["form"].startswith("array") else np.array(u))
     if okq and exact is not None:
         c.eq("normsq", nq, float(sum(Fraction(x) * Fraction(x) for x in case["u"])), 1e-14, max(exact * exact, 1e-300))
     okc, cv = c.lib("colvec", b.colvec, fu)
@@ -286,6 +308,7 @@ def classify(case):
 def subchecks(tier):
     return [
         Sub("hatvee", strategy=s_hatvee(), n=(800, 20000), shards=(4, 16)),
+        Sub("hatvee_element_types", gen=gen_hatvee_dtypes, shards=(2, 4)),
         Sub("adjoint", strategy=s_adjoint(), n=(500, 12000), shards=(6, 16)),
         Sub("delta", strategy=s_delta(), n=(500, 12000), shards=(4, 16)),
         *probes.subs(PROPERTY_ID),
